@@ -164,7 +164,8 @@ def build(run: Run):
                 kw = {k.arg: k.value for k in n_.keywords}
                 a = list(n_.args) + [None, None]
                 kk, vv = kw.get("keys", a[0]), kw.get("values", a[1])
-                fresh_expr = lambda e: isinstance(e, (_ast.List, _ast.ListComp)) or (isinstance(e, _ast.Call) and _ast.unparse(e.func) == "list")  # noqa
+                fresh_expr = lambda e: isinstance(e, (_ast.List, _ast.ListComp)) or (isinstance(e, _ast.Call) and _ast.unparse(e.func) == "list") or \
+                    (isinstance(e, _ast.Subscript) and isinstance(e.slice, _ast.Slice))  # noqa  (a slice of a list is a new list)
                 ok = kk is not None and vv is not None and (fresh_expr(kk) or fresh_expr(vv) or (isinstance(kk, _ast.Name) and isinstance(vv, _ast.Name) and kk.id != vv.id))
                 run.syntactic(f"{q}:dict-node-built-with-two-lists@{n_.lineno}", "invariant", ok, _ast.unparse(n_)[:80], where=q,
                               meta={"clause": "a Dict node is constructed with two different list objects for keys and values", "weak": not ok})
